@@ -384,6 +384,7 @@ def main(prop_id, tier='quick', replay=None):
 
     # 5. label floors
     floor_err = []
+    floor_margin = []
     total_ok = agg['evaluations'] - sum(agg['skipped'].values())
     total_ok -= agg['labels'].get(getattr(mod, 'FLOOR_EXCLUDE_LABEL', '\0'), 0)
     for lab, frac in getattr(mod, 'LABEL_FLOORS', {}).items():
@@ -392,6 +393,9 @@ def main(prop_id, tier='quick', replay=None):
         # so that seed-to-seed variation of the smaller classes does not stop a run
         if got < 0.6 * frac and n_examples >= 200 and total_ok >= 200:
             floor_err.append('label %s: %.3f < floor %.3f' % (lab, got, frac))
+        floor_margin.append((got / (0.6 * frac), lab))
+    if floor_margin:
+        print('  smallest label-floor margin: %s at %.2f times its alarm level' % (min(floor_margin)[1], min(floor_margin)[0]))
 
     # evidence
     samples = sorted(agg['samples'], key=lambda s: s[0])
